@@ -356,3 +356,43 @@ Section Order.
     - apply isort_sorted. intros. apply less_asym; auto.
   Qed.
 End Order.
+
+(* ---------- the decidable totality check used by the correspondence is sound ---------- *)
+Section TotalCheck.
+  Variable first last : list string.
+  Notation less := (legacy_less first last).
+
+  Lemma pairs_increasing_total : forall s, pairs_increasing first last s = true -> total_on less s.
+  Proof.
+    induction s as [|x t IH]; intros H.
+    - constructor; intros; try contradiction.
+    - simpl in H. apply andb_true_iff in H. destruct H as [H Ht].
+      apply andb_true_iff in H. destruct H as [Hx Hxt].
+      apply negb_true_iff in Hx. rewrite forallb_forall in Hxt.
+      assert (Fwd : forall y, In y t -> less x y = true /\ less y x = false).
+      { intros y Iy. specialize (Hxt _ Iy). apply andb_true_iff in Hxt. destruct Hxt as [A B].
+        apply negb_true_iff in B. auto. }
+      specialize (IH Ht). destruct IH as [I As T Tot].
+      constructor.
+      + intros a [<-|Ia]; auto.
+      + intros a b [<-|Ia] [<-|Ib] L; auto.
+        * apply Fwd; auto.
+        * destruct (Fwd _ Ia). congruence.
+      + intros a b c [<-|Ia] [<-|Ib] [<-|Ic] L1 L2; auto;
+          try (destruct (Fwd _ Ia); congruence);
+          try (destruct (Fwd _ Ib); congruence);
+          try (destruct (Fwd _ Ic); congruence).
+        apply (T a b c); auto.
+      + intros a b [<-|Ia] [<-|Ib] N.
+        * contradiction.
+        * left. apply Fwd; auto.
+        * right. apply Fwd; auto.
+        * apply Tot; auto.
+  Qed.
+
+  Theorem total_on_b_sound : forall l, total_on_b first last l = true -> total_on less l.
+  Proof.
+    intros l H. unfold total_on_b in H. apply pairs_increasing_total in H.
+    eapply total_on_perm; [|eauto]. apply isort_perm.
+  Qed.
+End TotalCheck.
